@@ -134,7 +134,7 @@ class Decider:
         self.trace = []  # [(key, choice, descr, forked)]
         self.by_key = {}
 
-    def choose(self, key, descr):
+    def choose(self, key, descr, default=True):
         if key in self.by_key:
             return self.by_key[key]
         i = len(self.trace)
@@ -142,7 +142,7 @@ class Decider:
             c = self.prefix[i]
             forked = False
         else:
-            c = True
+            c = default
             forked = True
         self.trace.append((key, c, descr, forked))
         self.by_key[key] = c
@@ -444,6 +444,15 @@ class Interp:
             self.log("raise", s, exc=name)
             raise _Raise(name, s, self.cur_func())
         elif isinstance(s, ast.Try):
+            # each handler is a trace partition "the try body raised <type>" (never decided, only labelled)
+            for h in s.handlers:
+                name = ast.unparse(h.type) if h.type is not None else "BaseException"
+                if self.decider.choose(("exc", name, s.lineno), f"{name} raised in try block at line {s.lineno}", default=False):
+                    if h.name:
+                        env.set(h.name, ExtObj("exception:" + name, {}, h))
+                    self._exec_block(h.body, env)
+                    self._exec_block(s.finalbody, env)
+                    return
             self._exec_block(s.body, env)
             self._exec_block(s.orelse, env)
             self._exec_block(s.finalbody, env)
@@ -1506,6 +1515,12 @@ def _h_like(fill):
             fv = bound.get("fill_value")
         elif fill is not None:
             fv = const_num(fill)
+        shp = bound.get("shape")
+        if isinstance(shp, TupV) and len(shp.items) == 2:
+            it._uid += 1
+            arr = Arr2(f"<arr2#{it._uid}@{getattr(node, 'lineno', 0)}>", [it.to_nf(x) for x in shp.items], qual.split(".")[-1], proto, dict(bound), node)
+            it.log("alloc", node, buf=arr, callee=qual, args=bound)
+            return arr
         if isinstance(proto, Vec) and fv is not None:
             return Vec(it.to_nf(fv), proto.length)
         b = Buf(fv, proto, creator=qual.split(".")[-1], node=node, kwargs={k: v for k, v in bound.items()})
@@ -1520,7 +1535,9 @@ def _h_alloc(fill):
         shape = args[0] if args else bound.get("shape")
         if isinstance(shape, TupV) and len(shape.items) == 2:
             it._uid += 1
-            return Arr2(f"<arr2#{it._uid}@{getattr(node, 'lineno', 0)}>", [it.to_nf(x) for x in shape.items])
+            arr = Arr2(f"<arr2#{it._uid}@{getattr(node, 'lineno', 0)}>", [it.to_nf(x) for x in shape.items], qual.split(".")[-1], None, dict(bound), node)
+            it.log("alloc", node, buf=arr, callee=qual, args=bound)
+            return arr
         b = Buf(const_num(fill) if fill is not None else None, None, creator=qual.split(".")[-1], node=node, kwargs=dict(bound))
         it.log("alloc", node, buf=b, callee=qual, args=bound)
         return b
@@ -1546,7 +1563,42 @@ def _h_pow10(it, args, kwargs, bound, node, qual):
 
 def _h_hasattr(it, args, kwargs, bound, node, qual):
     nm = args[1].s if len(args) > 1 and isinstance(args[1], StrV) else "?"
+    if args and isinstance(args[0], Inst) and nm in args[0].attrs:
+        return BoolV("const", True)
     return BoolV("opaque", f"hasattr({nf.show(it.to_nf(args[0]), 120)}, {nm!r})")
+
+
+def _h_getattr(it, args, kwargs, bound, node, qual):
+    if len(args) < 2 or not isinstance(args[1], StrV):
+        return None
+    obj, name = args[0], args[1].s
+    if isinstance(obj, Inst) and (name in obj.attrs or obj.cls.lookup(name) is not None):
+        return it.getattr(obj, name, node)
+    if len(args) >= 3:
+        t = BoolV("opaque", f"hasattr({nf.show(it.to_nf(obj), 120)}, {name!r})")
+        if not it.decide(t, node):
+            return args[2]
+    return it.getattr(obj, name, node)
+
+
+def _h_setattr(it, args, kwargs, bound, node, qual):
+    if len(args) == 3 and isinstance(args[1], StrV):
+        obj = args[0]
+        it.log("store_attr", node, base=obj, attr=args[1].s, value=args[2])
+        if isinstance(obj, (Inst, ExtObj)):
+            obj.attrs[args[1].s] = args[2]
+        return NoneV()
+    return None
+
+
+def _h_delattr(it, args, kwargs, bound, node, qual):
+    if len(args) == 2 and isinstance(args[1], StrV):
+        obj = args[0]
+        it.log("del_attr", node, base=obj, attr=args[1].s)
+        if isinstance(obj, Inst):
+            obj.attrs.pop(args[1].s, None)
+        return NoneV()
+    return None
 
 
 def _h_isinstance(it, args, kwargs, bound, node, qual):
@@ -1625,6 +1677,9 @@ _EXT_HANDLERS = {
     "warnings.warn": _h_none,
     "warnings.simplefilter": _h_none,
     "hasattr": _h_hasattr,
+    "getattr": _h_getattr,
+    "setattr": _h_setattr,
+    "delattr": _h_delattr,
     "isinstance": _h_isinstance,
     "dict": _h_dict,
 }
